@@ -280,12 +280,14 @@ class Mirror:
             return self.none_u(x)
         if k == "seq":
             dd = self.load(x)
-            rs = [self.unm(d[3], v) for v in self.itervalues(dd)]
-            return self._construct(lambda: SEQ_PY[d[1]](rs))
+            vs = self.itervalues(dd)
+            # a GENERATOR is handed to the origin (Core.elem_conv): set / frozenset hash each member as it is produced
+            return self._construct(lambda: SEQ_PY[d[1]](self.unm(d[3], v) for v in vs))
         if k == "map":
             dd = self.load(x)
-            rs = [(self.unm(d[3], a), self.unm(d[4], b)) for a, b in self.iteritems(dd)]
-            return self._construct(lambda: MAP_PY[d[1]](rs))
+            kvs = self.iteritems(dd)
+            # Core.hashing fst: key, value, then the key is hashed, pair by pair
+            return self._construct(lambda: MAP_PY[d[1]]((self.unm(d[3], a), self.unm(d[4], b)) for a, b in kvs))
         if k == "tuple":
             dd = self.load(x)
             vs = self.itervalues(dd)
@@ -344,8 +346,8 @@ class Mirror:
         if k == "seq":
             return [self.mar(d[3], v) for v in self.itervalues(x)]
         if k == "map":
-            rs = [(self.mar(d[3], a), self.mar(d[4], b)) for a, b in self.iteritems(x)]
-            return self._construct(lambda: dict(rs))
+            kvs = self.iteritems(x)
+            return self._construct(lambda: dict((self.mar(d[3], a), self.mar(d[4], b)) for a, b in kvs))
         if k == "tuple":
             return [self.mar(t, v) for t, v in zip(d[2], self.itervalues(x))]
         if k == "union":
@@ -501,7 +503,7 @@ class Group:
         base = self.emit(name, strict)
         orders = coq_list([f"({k}, {v})" for k, v in self.orders["u"].items()], "(ty * list node)")
         extra = (f"Definition orders : list (ty * list node) :=\n  {orders}.\n"
-                 f"Definition bad_mech := mismatches (mech_case_ok rt E orders {self.fuel} {coq_bool(strict)}) cases.\n"
+                 f"Definition bad_mech := mismatches (mech_case_ok rt E orders {self.fuel} {coq_bool(strict or getattr(self, 'strict_kinds', False))}) cases.\n"
                  f"Definition bad_agree := mismatches (mech_spec_agree rt E orders {self.fuel}) cases.\n"
                  f"Definition hyps_ok := orders_hyps_ok E [{self.reg.leaves['Any']}%nat] orders.\n")
         return base.replace(f"End {name}.\n", extra + f"End {name}.\n")
@@ -554,7 +556,7 @@ class Group:
             f"  {coq_list([coq_pair(coq_nat(a), coq_nat(b)) for a, b in self.atom_eq_pairs()], '(nat * nat)')}\n"
             f"  {none_enc}\n  {sup}.\n"
             f"Definition cases : list case :=\n  {cases}.\n"
-            f"Definition bad := mismatches (case_ok rt E {self.fuel} {coq_bool(strict)}) cases.\n"
+            f"Definition bad := mismatches (case_ok rt E {self.fuel} {coq_bool(strict or getattr(self, 'strict_kinds', False))}) cases.\n"
             f"End {name}.\n"
         )
 
@@ -579,6 +581,16 @@ def _annotations_of(t, seen, out, depth=0):
         v = getattr(t, attr, None)
         if v is not None and not isinstance(v, str):
             _annotations_of(v, seen, out, depth + 1)
+    if isinstance(t, typing.TypeVar):
+        # what inspection resolves a type variable to: its bound, or the Union of its constraints (an IMPLIED union
+        # spelling: TypeVar("T", int, str) collides with Union[str, int] exactly as Union[int, str] does)
+        if t.__bound__ is not None and not isinstance(t.__bound__, str):
+            _annotations_of(t.__bound__, seen, out, depth + 1)
+        elif t.__constraints__:
+            try:
+                _annotations_of(typing.Union[t.__constraints__], seen, out, depth + 1)
+            except Exception:
+                pass
     if isinstance(t, type) and getattr(t, "__module__", "").startswith("verif_"):
         try:
             hints = typing.get_type_hints(t)
